@@ -1,4 +1,5 @@
 """C23 — mutable share containers behave like byte arrays (storage/mutable.py, storage/server.py)."""
+import os
 import props._storage_common as sc
 from common import hx, unhx
 
@@ -223,8 +224,8 @@ def run(ctx):
         if ctx.replay:
             hists = [ctx.replay["case"]["history"]]
         else:
-            hists = [corpus_empty_write(), corpus_relocation()]
-            n = ctx.budget(60, 3000)
+            hists = corpus()
+            n = 0 if os.environ.get("VERIF_CORPUS_ONLY") else ctx.budget(60, 3000)
             for i in range(n):
                 far = ctx.rng.choice([3000, 3000, 20000, 20000, 150000]) if i % 10 else 1200000
                 hists.append(gen_history(ctx.rng, ctx.rng.choice([5, 15, 40, 40]), far, ctx.rng.choice([0, 1, 2, 4, 5, 7, 10])))
@@ -239,6 +240,59 @@ def run(ctx):
         ctx.sample({"ops": hists[-1]["ops"][:3], "impl": impl_outs[-1][:300]})
     finally:
         impl.close()
+
+
+def corpus():
+    """Fixed cases that run first in every run (independent of the random stream); one per known failure
+    mechanism.  VERIF_CORPUS_ONLY=1 runs only these."""
+    return [corpus_empty_write(), corpus_relocation(), corpus_small_growth_with_extra_leases(),
+            corpus_truncate_then_grow(), corpus_vector_order()]
+
+
+def corpus_small_growth_with_extra_leases():
+    """7 leases (3 in the extra-lease block, 4 + 3*92 = 280 bytes); the container then grows by 1, 5, 50 and 279 bytes —
+    less than the block — so the old and the new position of the block overlap during relocation; then by more."""
+    ops = []
+    for i in range(7):
+        ops.append(["rtw", 10 + i, 10 ** 12, WE, hx(bytes([0x50 + i]) * 32), hx(bytes([0x60 + i]) * 32), True,
+                    [[0, [], [[0, hx(b"x")]], None]], []])
+    ops += [["leases"], ["dump"]]
+    end = 1
+    for grow in [1, 5, 50, 279, 281, 1000]:
+        end += grow
+        ops.append(["rtw", 30, 10 ** 12, WE, hx(b"\x50" * 32), hx(b"\x60" * 32), False,
+                    [[0, [], [[end - 1, hx(b"G")]], None]], [[0, 10]]])
+        ops += [["leases"], ["dump"]]
+    ops += [["readv", [], [[0, 10 ** 6]]]]
+    return {"nodeid": hx(sc.NODEID), "ops": ops}
+
+
+def corpus_truncate_then_grow():
+    """200 non-zero bytes, truncated to 10 (the old bytes stay in the file), then a write far beyond the CONTAINER
+    (forces enlargement): the gap [10, 600) must read as zeros, not as the stale bytes"""
+    s1, s2 = hx(b"\x41" * 32), hx(b"\x42" * 32)
+    return {"nodeid": hx(sc.NODEID), "ops": [
+        ["rtw", 5, 10 ** 12, WE, s1, s2, True, [[0, [], [[0, hx(b"\x77" * 200)]], None]], []],
+        ["rtw", 6, 10 ** 12, WE, s1, s2, False, [[0, [], [], 10]], [[0, 300]]],
+        ["rtw", 7, 10 ** 12, WE, s1, s2, False, [[0, [], [[600, hx(b"END")]], None]], [[0, 300]]],
+        ["readv", [], [[0, 1000]]], ["dump"],
+        # same with an empty vector past the end of the container
+        ["rtw", 8, 10 ** 12, WE, s1, s2, False, [[0, [], [], 3]], []],
+        ["rtw", 9, 10 ** 12, WE, s1, s2, False, [[0, [], [[2000, "-"]], None]], [[0, 50]]],
+        ["readv", [], [[0, 3000]]], ["leases"], ["dump"]]}
+
+
+def corpus_vector_order():
+    """several write vectors for one share whose order matters: a later vector overlapping an earlier one and reaching
+    further; a far vector first and a near one second; both orders"""
+    s1, s2 = hx(b"\x41" * 32), hx(b"\x42" * 32)
+    return {"nodeid": hx(sc.NODEID), "ops": [
+        ["rtw", 5, 10 ** 12, WE, s1, s2, True, [[0, [], [[2, hx(b"BB")], [0, hx(b"AAAAAA")]], None]], []],
+        ["readv", [], [[0, 100]]],
+        ["rtw", 6, 10 ** 12, WE, s1, s2, False, [[1, [], [[0, hx(b"AAAAAA")], [2, hx(b"BB")], [1, hx(b"CCCCCCCC")]], None]], []],
+        ["readv", [], [[0, 100]]],
+        ["rtw", 7, 10 ** 12, WE, s1, s2, False, [[0, [], [[40, hx(b"far")], [10, hx(b"near")], [38, hx(b"ZZZZZZ")]], 43]], [[0, 100]]],
+        ["readv", [], [[0, 100]]], ["dump"]]}
 
 
 def corpus_empty_write():
